@@ -6,6 +6,7 @@ from . import ops_ls
 from . import ops_block
 from . import ops_c09
 from . import ops_sys
+from . import ops_misc
 
 TABLE = Table()
 ops_dp.build_arm(TABLE)
@@ -16,6 +17,7 @@ ops_ls.build_thumb(TABLE)
 ops_block.build(TABLE)
 ops_c09.build(TABLE)
 ops_sys.build(TABLE)
+ops_misc.build(TABLE)
 
 
 def rows_for(cls_name):
